@@ -8,6 +8,8 @@ import PeptVerif.Props.C18
 #print axioms Pept.C18.condense_positions
 #print axioms Pept.C18.condense_mass
 #print axioms Pept.C18.condense_mass_output
+#print axioms Pept.C18.written_text_value
+#print axioms Pept.C18.numericMu_satisfiable
 #print axioms Pept.C18.condense_mass_k
 #print axioms Pept.C18.condense_mass_label
 #print axioms Pept.C18.exCoh_coherent
